@@ -65,6 +65,15 @@ def setup2(be, n, n2=None, ty="i32"):
     return S
 
 
+def wloop(view, n, stmts):
+    """windows 1..=N+3. Fast-path inputs (Vec, [T; N], Array1): concrete loop — with a symbolic window the slot index
+    handed to `uset` is symbolic and the write log becomes an array-theory problem (measured 3-7x slower).
+    DefView (default bodies = iterator chains): symbolic window (the concrete loop is 3-7x slower there)."""
+    if view == "dv":
+        return [f"let w = any_window::<{n}>(1);"] + stmts
+    return ["let mut w = 1usize;", f"while w <= {n} + 3 {{"] + ["    " + x for x in stmts] + ["    w += 1;", "}"]
+
+
 DRV = {  # name -> (ret call, out call)
     "apply":   ("apply_ret::<i32, _, {N}>(&v, w);", "apply_out::<i32, _, {N}>(&v, w);"),
     "idx":     ("idx_ret::<i32, _, {N}>(&v, w);", "idx_out::<i32, _, {N}>(&v, w);"),
@@ -75,22 +84,19 @@ DRV = {  # name -> (ret call, out call)
 }
 
 
-def drv_main(be, path, nl, thorough=False):
+def drv_main(be, path, nl, thorough=False, drivers=None, tag="drv"):
     """path: 0 = returned (O = Logged), 1 = caller buffer (Some(out) over a Logged buffer)"""
     B = ["let (mut short, mut long) = (false, false);"]
     for n in nl:
         B.append("{")
         B += ["    " + s for s in setup2(be, n)]
-        B.append(f"    let w = any_window::<{n}>(1);")
-        for d, calls in DRV.items():
-            B.append("    " + calls[path].format(N=n))
-        B.append(f"    short |= w < {n};")
-        B.append(f"    long |= w > {n};")
+        calls = [c[path].format(N=n) for d, c in DRV.items() if drivers is None or d in drivers]
+        B += ["    " + x for x in wloop("dv" if be in ("dv", "vec", "nd") else be, n, calls + [f"short |= w < {n};", f"long |= w > {n};"])]
         B.append("}")
     if max(nl) >= 2:
         B.append('kani::cover!(short, "window shorter than the series");')
     B.append('kani::cover!(long, "window longer than the series");')
-    add(f"c10_drv_{be}_{('ret', 'out')[path]}_{ns(nl)}", B, max(nl) + 4, thorough)
+    add(f"c10_{tag}_{be}_{('ret', 'out')[path]}_{ns(nl)}", B, max(nl) + 4, thorough)
 
 
 def selector(cases, n):
@@ -183,9 +189,8 @@ def cmp_h(kernel, view, nl, thorough=False):
     for n in nl:
         B.append("{")
         B += ["    " + s for s in view_opt(view, n, False)]
-        B.append(f"    let (w, mp) = (any_window::<{n}>(1), any_mp::<{n}>());")
-        B.append(f"    {CMP[kernel]}::<_, {n}>(&v, w, mp);")
-        B.append(f"    short |= w < {n};")
+        B.append(f"    let mp = any_mp::<{n}>();")
+        B += ["    " + x for x in wloop(view, n, [f"{CMP[kernel]}::<_, {n}>(&v, w, mp);", f"short |= w < {n};"])]
         B.append("    some_mp |= mp.is_some();")
         B.append("}")
     if max(nl) >= 2:
@@ -199,19 +204,40 @@ def minmaxnorm_h(view, nl, thorough=False):
     for n in nl:
         B.append("{")
         B += ["    " + s for s in view_opt(view, n, True)]
-        B.append(f"    k_minmaxnorm::<_, {n}>(&v, any_window::<{n}>(1), any_mp::<{n}>());")
+        B.append(f"    let mp = any_mp::<{n}>();")
+        B += ["    " + x for x in wloop(view, n, [f"k_minmaxnorm::<_, {n}>(&v, w, mp);"])]
         B.append("}")
     add(f"c10_minmaxnorm_{view}_{ns(nl)}", B, max(nl) + 4, thorough)
 
 
 def resid_h(kind, view, nl, thorough=False):
+    """fixed values; NaN masks of the first series (second all valid) and of the second series (first all valid)
+    enumerated by a concrete loop, windows 1..=N+3 by a concrete loop, min_periods symbolic (it alone decides whether
+    the kernel's j-loop over the window runs)"""
     B = []
     for n in nl:
         B.append("{")
-        B += ["    " + s for s in view_f64(view, n)]
-        B.append(f"    k_resid_{kind}::<_, _, {n}>(&va, &vb, any_window::<{n}>(1), any_mp::<{n}>());")
+        B.append(f"    let mp = any_mp::<{n}>();")
+        B.append("    let mut m = 0usize;")
+        B.append(f"    while m < 2 * (1 << {n}) {{")
+        B.append(f"        let (ma, mb) = if m < (1 << {n}) {{ (m, 0) }} else {{ (0, m - (1 << {n})) }};")
+        B.append(f"        let a = f64_masked::<{n}>(1, ma);")
+        B.append(f"        let b = f64_masked::<{n}>(2, mb);")
+        if view == "vec":
+            B += ["        let va: Vec<f64> = a.to_vec();", "        let vb: Vec<f64> = b.to_vec();"]
+        elif view == "arr":
+            B += ["        let va = a;", "        let vb = b;"]
+        else:
+            B += ["        let va = DefView(&a[..]);", "        let vb = DefView(&b[..]);"]
+        B.append("        let mut w = 1usize;")
+        B.append(f"        while w <= {n} + 3 {{")
+        B.append(f"            k_resid_{kind}::<_, _, {n}>(&va, &vb, w, mp);")
+        B.append("            w += 1;")
+        B.append("        }")
+        B.append("        m += 1;")
+        B.append("    }")
         B.append("}")
-    add(f"c10_resid_{kind}_{view}_{ns(nl)}", B, max(nl) + 4, thorough)
+    add(f"c10_resid_{kind}_{view}_{ns(nl)}", B, 2 * (1 << max(nl)) + 2, thorough)
 
 
 def vrank_h(view, nl, thorough=False):
@@ -299,9 +325,11 @@ def main():
         # Vec: every length; Array1 (same fast-path text, other uget) and DefView (default bodies): N = 3 quick
         for nl in ([0, 1], [2], [3]):
             drv_main("vec", path, nl, False)
-            drv_main("nd", path, nl, nl != [2])      # Array1 at N = 3: 380-450 s measured
+            # Array1: the slice forms dominate (ndarray slicing); N = 3 all drivers: 380-450 s measured
+            drv_main("nd", path, nl, nl != [2], ("apply", "idx", "apply2", "idx2"))
+            drv_main("nd", path, nl, nl != [2], ("custom", "custom2"), "drvc")
             drv_main("dv", path, nl, nl != [3])
-        for be in ("vec", "nd", "dv"):
+        for be in ("vec", "dv"):
             drv_main(be, path, [4], True)
     w0_empty()
     for be in ("vec", "nd"):
